@@ -5,10 +5,11 @@ Property theorems only.  Model: `Model/Topics.lean` (tries of maps +
 `nextTopicLevel`, as repaired by the three `fix:` commits).  Specification:
 `Spec/Match.lean` (§4.7) and `Spec/TopicStore.lean`.
 -/
-import Mqtt.Proofs.Topics
+import Mqtt.Proofs.TopicsRetainedHistory
 
 namespace Mqtt.Properties.C06
-open Mqtt.Model.Topics Mqtt.Proofs.Topics
+open Mqtt.Model.Topics Mqtt.Proofs.Topics Mqtt.Iface.Topics
+open Mqtt.Spec.Match (split validFilter validName topicMatches)
 
 /-- Re-subscribing the same subscriber at a node replaces its QoS, keeps one
 entry for it and leaves every other subscriber's entry as it was. -/
@@ -18,5 +19,287 @@ theorem C06_resubscribe_replaces (subs : List (Nat × Nat)) (sub qos : Nat)
     ((subsInsert subs sub qos).map (·.1)).Nodup ∧
     ∀ s, s ≠ sub → (subsInsert subs sub qos).lookup s = subs.lookup s :=
   subsInsert_spec subs sub qos hu
+
+/-! ### 1. what `smatch` returns, for every trie and every name -/
+
+/-- For every trie whose Go maps have unique keys (`WF`) and every list of name
+levels, the walk of `smatch` succeeds and returns - up to the order of map
+iteration - exactly the entries `(path, subscriber, g)` of the trie (`abs`)
+whose path is matched by the name (`walk`), each with QoS `min q g`. -/
+theorem C06_smatch_char (n : SNode) (ns : List Level) (q : Nat) (hwf : WF n) :
+    ∃ r, n.smatchL ns true q = some r ∧
+      r.Perm ((abs n).filterMap (fun e => if walk e.1 ns then some (e.2.1, min q e.2.2) else none)) :=
+  smatch_char n ns q hwf
+
+/-- non-vacuity: a well-formed trie holding `a/+` (sub 1, QoS 2), `a/#` (sub 2, QoS 0),
+`b` (sub 3, QoS 1); the name `a/b` at QoS 1 reaches subscribers 1 and 2. -/
+example :
+    let a : Level := [97]; let b : Level := [98]
+    let t : SNode := .mk [] [(a, .mk [] [(SWC, .mk [(1, 2)] []), (MWC, .mk [(2, 0)] [])]), (b, .mk [(3, 1)] [])]
+    WF t ∧ t.smatchL [a, b] true 1 = some [(1, 1), (2, 0)] ∧
+      (abs t).filterMap (fun e => if walk e.1 [a, b] then some (e.2.1, min 1 e.2.2) else none) = [(1, 1), (2, 0)] := by
+  refine ⟨?_, by decide, by decide⟩
+  simp [WF_mk, SWC, MWC, cSWC, cMWC]
+
+/-! ### 2. the walk is the section 4.7 relation -/
+
+/-- The relation between stored paths and name levels that the trie walk
+computes is MQTT 3.1.1 section 4.7 matching on level lists, for all level
+lists (in particular for valid filters). -/
+theorem C06_walk_eq_spec (fs ns : List Level) : walk fs ns = Mqtt.Spec.Match.matchLevels fs ns :=
+  walk_eq_matchLevels fs ns
+
+/-- the form with the validity hypothesis of the design document -/
+theorem C06_walk_eq_spec_valid (fs ns : List Level) (_ : Mqtt.Spec.Match.validFilterLevels fs = true) :
+    walk fs ns = Mqtt.Spec.Match.matchLevels fs ns :=
+  walk_eq_matchLevels fs ns
+
+example : walk [[97], SWC, MWC] [[97], [], [98], [99]] = true ∧
+    Mqtt.Spec.Match.validFilterLevels [[97], SWC, MWC] = true := by decide
+
+/-! ### 3. the store: insert, remove, histories -/
+
+/-- `sinsert` on a well-formed trie: the result is well-formed; after a
+successful walk the entry of (path, subscriber) is replaced or added and every
+other entry is untouched; after a failed walk (`ok = false`, invalid filter) no
+entry changes (the nodes left behind hold nothing). -/
+theorem C06_sinsert_refines (n : SNode) (ls : List Level) (s q : Nat) (hwf : WF n) :
+    (∀ ok, WF (n.sinsertL ls ok s q)) ∧
+    (abs (n.sinsertL ls true s q)).Perm
+      ((abs n).filter (fun e => !(e.1 == ls && e.2.1 == s)) ++ [(ls, s, q)]) ∧
+    (abs (n.sinsertL ls false s q)).Perm (abs n) := by
+  refine ⟨fun ok => sinsertL_WF ls ok s q n hwf, ?_, sinsertL_abs_false ls s q n hwf⟩
+  have := sinsertL_abs ls s q n hwf
+  simpa [hit, subHit, Bool.and_comm, eq_comm] using this
+
+/-- `sremove` on a well-formed trie: well-formed result; exactly the entry of
+(path, subscriber) disappears (all entries of the path for the "remove all"
+mode `none`), every other entry stays; the call reports success exactly when
+there was such an entry; after a failed walk nothing changes at all. -/
+theorem C06_sremove_refines (n : SNode) (ls : List Level) (s : Nat) (hwf : WF n) :
+    (∀ ok sub, WF (n.sremoveL ls ok sub).1) ∧
+    (abs (n.sremoveL ls true (some s)).1).Perm ((abs n).filter (fun e => !(e.1 == ls && e.2.1 == s))) ∧
+    (n.sremoveL ls true (some s)).2 = (abs n).any (fun e => e.1 == ls && e.2.1 == s) ∧
+    (abs (n.sremoveL ls true none).1).Perm ((abs n).filter (fun e => !(e.1 == ls))) ∧
+    (∀ sub, n.sremoveL ls false sub = (n, false)) := by
+  refine ⟨fun ok sub => sremoveL_WF ls ok sub n hwf, ?_, ?_, ?_, ?_⟩
+  · simpa [hit, subHit] using sremoveL_abs ls (some s) n hwf
+  · rw [sremoveL_snd ls s n hwf]; rfl
+  · simpa [hit, subHit] using sremoveL_abs ls none n hwf
+  · intro sub
+    exact Prod.ext (sremoveL_abs_false ls sub n hwf) (sremoveL_false_snd ls sub n)
+
+/-- Pruning invariant: "no childless, subscriber-less node below the root" is
+kept by every successful insert and by every remove. -/
+theorem C06_pruned_preserved (n : SNode) (ls : List Level) (hwf : WF n) (hp : Pruned n) :
+    (∀ s q, Pruned (n.sinsertL ls true s q)) ∧ (∀ ok sub, Pruned (n.sremoveL ls ok sub).1) :=
+  ⟨fun s q => sinsertL_Pruned ls s q n hp, fun ok sub => sremoveL_Pruned ls ok sub n hwf hp⟩
+
+/-- Store refinement over histories.  `mrun` folds the driver's `modelStep`
+(the function the differential runs tie to topics/memtopics.go), `srun` folds
+the specification's `step`.  If no topic argument in the history has an empty
+level or a '$'-led level, the trie is well-formed and holds exactly the
+abstract store's subscriptions. -/
+theorem C06_store_refines (ops : List Op) (hg : ∀ op ∈ ops, good (opTopic op) = true) :
+    WF (mrun ops).sroot ∧
+    (abs (mrun ops).sroot).Perm ((srun ops).subs.map (fun e => (split e.filter, e.sub, e.qos))) :=
+  ⟨(run_inv ops hg).wf, (run_inv ops hg).perm⟩
+
+/-- The full statement of the subscribers part of C06 (all histories, all valid names). -/
+def C06_subscribers_full : Prop :=
+  ∀ (ops : List Op) (t : List UInt8) (q : Nat), validName t = true → q ≤ 2 →
+    ∃ r, (mrun ops).subscribers t q = some r ∧
+      r.Perm (((srun ops).subs.filter (fun e => topicMatches e.filter t)).map (fun e => (e.sub, min q e.qos)))
+
+/-- It is false of the code as it is (finding B3): filter "/a" receives "x/a". -/
+theorem C06_subscribers_full_counterexample : ¬ C06_subscribers_full := by
+  intro h
+  obtain ⟨r, hr, hp⟩ := h [.sub [47, 97] 1 7] [120, 47, 97] 1 (by decide) (by decide)
+  have h1 : (mrun [.sub [47, 97] 1 7]).subscribers [120, 47, 97] 1 = some [(7, 1)] := by decide
+  have h2 : ((srun [.sub [47, 97] 1 7]).subs.filter (fun e => topicMatches e.filter [120, 47, 97])).map
+      (fun e => (e.sub, min 1 e.qos)) = [] := by decide
+  rw [h1] at hr
+  rw [h2] at hp
+  cases hr
+  exact absurd hp.length_eq (by decide)
+
+/-- The part that holds: for every history and every name without empty and
+without '$'-led levels, `Subscribers` reports exactly the still-subscribed
+(subscriber, filter) pairs whose filter matches the name under section 4.7,
+each with QoS min(publish QoS, subscription QoS). -/
+theorem C06_subscribers_partial (ops : List Op) (t : List UInt8) (q : Nat)
+    (hg : ∀ op ∈ ops, good (opTopic op) = true) (hgt : good t = true)
+    (hn : validName t = true) (hq : q ≤ 2) :
+    ∃ r, (mrun ops).subscribers t q = some r ∧
+      r.Perm (((srun ops).subs.filter (fun e => topicMatches e.filter t)).map (fun e => (e.sub, min q e.qos))) :=
+  subscribers_refines (mrun ops) (srun ops).subs t q (run_inv ops hg) hgt hn hq
+
+/-- the right-hand side is the specification's own answer -/
+theorem C06_spec_answer (s : Mqtt.Spec.TopicStore.S) (t : List UInt8) (q : Nat)
+    (hgt : good t = true) (hn : validName t = true) (hq : q ≤ 2) :
+    ∃ l, Mqtt.Spec.TopicStore.step s (.subs t q) = (s, .subs l) ∧
+      l = (s.subs.filter (fun e => topicMatches e.filter t)).map (fun e => (e.sub, min q e.qos)) := by
+  have hd := good_not_dollar t hgt
+  have hq' : ¬ q > 2 := by omega
+  refine ⟨_, ?_, rfl⟩
+  simp [Mqtt.Spec.TopicStore.step, hd, hq', hn]
+
+/-- An invalid filter is rejected without side effects (on the entries). -/
+theorem C06_invalid_filter_rejected (mt : MemTopics) (f : List UInt8) (q s : Nat)
+    (hwf : WF mt.sroot) (hg : good f = true) (hv : validFilter f = false) :
+    (mt.subscribe 2 f q s).2 = none ∧ (abs (mt.subscribe 2 f q s).1.sroot).Perm (abs mt.sroot) := by
+  have hl := levels_invalid f hg hv
+  unfold MemTopics.subscribe SNode.sinsert
+  cases validQos q with
+  | false => exact ⟨rfl, List.Perm.refl _⟩
+  | true =>
+    simp only [Bool.not_true, Bool.false_eq_true, ↓reduceIte, hl]
+    exact ⟨trivial, sinsertL_abs_false _ _ _ _ hwf⟩
+
+/-- What the calls report, after any good history: `Subscribe` grants the
+requested QoS exactly for valid filters (and QoS <= 2), `Unsubscribe` succeeds
+exactly when the abstract store holds that (subscriber, filter) pair - the
+outcomes the specification's `step` prescribes (`granted q` / `ok` / `err`). -/
+theorem C06_outcomes_partial (ops : List Op) (f : List UInt8) (q s : Nat)
+    (hg : ∀ op ∈ ops, good (opTopic op) = true) (hgf : good f = true) :
+    ((mrun ops).subscribe 2 f q s).2 = (if q ≤ 2 ∧ validFilter f = true then some q else none) ∧
+    ((mrun ops).unsubscribe f (some s)).2 = (srun ops).subs.any (fun e => e.sub == s && e.filter == f) :=
+  ⟨subscribe_outcome (mrun ops) f q s hgf, unsubscribe_outcome (mrun ops) (srun ops).subs f s (run_inv ops hg) hgf⟩
+
+/-- non-vacuity: a history with re-subscription, removal and an invalid filter -/
+example :
+    let ops : List Op := [.sub [97, 47, 43] 1 1, .sub [97, 47, 35] 2 2, .sub [97, 47, 43] 0 1,
+                          .sub [97, 35] 1 3, .sub [97, 47, 98, 43] 1 5, .sub [98] 1 4, .unsub [98] 4]
+    (∀ op ∈ ops, good (opTopic op) = true) ∧ good [97, 47, 98] = true ∧ validName [97, 47, 98] = true ∧
+      (mrun ops).subscribers [97, 47, 98] 1 = some [(1, 0), (2, 1)] := by decide
+
+/-! ### 4. the byte state machine against `split` -/
+
+/-- For byte strings without empty levels and without '$'-led levels, iterating
+`nextTopicLevel` yields the specification's levels and succeeds exactly on the
+valid filters. -/
+theorem C06_levels_spec (s : List UInt8) (hg : good s = true) :
+    (validFilter s = true ↔ levels s = (split s, true)) ∧
+    (validFilter s = false ↔ (levels s).2 = false) := by
+  obtain ⟨h1, h2⟩ := levels_spec s hg
+  refine ⟨⟨h1, fun h => ?_⟩, ⟨h2, fun h => ?_⟩⟩
+  · cases hv : validFilter s with
+    | true => rfl
+    | false => have := h2 hv; rw [h] at this; exact absurd this (by simp)
+  · cases hv : validFilter s with
+    | false => rfl
+    | true => have := h1 hv; rw [this] at h; exact absurd h (by simp)
+
+example : good [97, 47, 43, 47, 35] = true ∧ validFilter [97, 47, 43, 47, 35] = true ∧
+    good [97, 43] = true ∧ validFilter [97, 43] = false := by decide
+
+/-- The full statement (without the restriction) - `levels` is `split` on valid filters. -/
+def C06_levels_full : Prop := ∀ s : List UInt8, validFilter s = true → levels s = (split s, true)
+
+/-- B3: a non-final empty level becomes `+` ("/a"), a final empty level is dropped ("a/"). -/
+theorem C06_levels_counterexample_empty_level :
+    validFilter [47, 97] = true ∧ levels [47, 97] = ([SWC, [97]], true) ∧ split [47, 97] = [[], [97]] ∧
+    validFilter [97, 47] = true ∧ levels [97, 47] = ([[97]], true) ∧ split [97, 47] = [[97], []] := by decide
+
+/-- B4: a '$'-led level below the first ("a/$b", valid per 4.7.2) is an error. -/
+theorem C06_levels_counterexample_dollar_level :
+    validFilter [97, 47, 36, 98] = true ∧ (levels [97, 47, 36, 98]).2 = false := by decide
+
+theorem C06_levels_full_counterexample : ¬ C06_levels_full := by
+  intro h
+  have := h [47, 97] (by decide)
+  exact absurd this (by decide)
+
+/-! ### 5. the retained trie -/
+
+/-- For every retained trie with unique map keys and every list of filter
+levels, `rmatch` succeeds and returns - up to map order - exactly the stored
+messages whose path is selected by the filter walk `rwalk`. -/
+theorem C06_rmatch_char (n : RNode) (fs : List Level) (hwf : RWF n) :
+    ∃ r, n.rmatchL fs true = some r ∧
+      r.Perm ((absR n).filterMap (fun e => if rwalk fs e.1 then some e.2 else none)) :=
+  rmatch_char n fs hwf
+
+/-- For valid filters that walk is section 4.7 matching.  (For an invalid list
+with `#` before the end it is not: `rmatch` stops at the first `#`.) -/
+theorem C06_rwalk_eq_spec (fs p : List Level) (hv : Mqtt.Spec.Match.validFilterLevels fs = true) :
+    rwalk fs p = Mqtt.Spec.Match.matchLevels fs p :=
+  rwalk_eq_matchLevels fs hv p
+
+theorem C06_rwalk_invalid_counterexample :
+    rwalk [MWC, [97]] [[98]] = true ∧ Mqtt.Spec.Match.matchLevels [MWC, [97]] [[98]] = false := by decide
+
+example :
+    let a : Level := [97]; let b : Level := [98]
+    let m1 : RMsg := { topic := [97], qos := 1, payload := [1] }
+    let m2 : RMsg := { topic := [97, 47, 98], qos := 0, payload := [2] }
+    let t : RNode := .mk none [(a, .mk (some m1) [(b, .mk (some m2) [])])]
+    RWF t ∧ t.rmatchL [a, MWC] true = some [m1, m2] ∧ t.rmatchL [a, SWC] true = some [m2] := by
+  refine ⟨?_, by decide, by decide⟩
+  simp [RWF_mk]
+
+/-- `rinsert` / `rremove` on a well-formed retained trie: well-formed result;
+storing under a path replaces that path's message and leaves all others;
+clearing a path deletes exactly that path's message - in particular the
+message of a parent survives the pruning of its child; failed walks change no
+entry. -/
+theorem C06_retained_trie_refines (n : RNode) (ls : List Level) (m : RMsg) (hwf : RWF n) :
+    (∀ ok, RWF (n.rinsertL ls ok m)) ∧ (∀ ok, RWF (n.rremoveL ls ok).1) ∧
+    (absR (n.rinsertL ls true m)).Perm ((absR n).filter (fun e => !(e.1 == ls)) ++ [(ls, m)]) ∧
+    (absR (n.rinsertL ls false m)).Perm (absR n) ∧
+    (absR (n.rremoveL ls true).1).Perm ((absR n).filter (fun e => !(e.1 == ls))) ∧
+    n.rremoveL ls false = (n, false) :=
+  ⟨fun ok => rinsertL_RWF ls ok m n hwf, fun ok => rremoveL_RWF ls ok n hwf, rinsertL_absR ls m n hwf,
+    rinsertL_absR_false ls m n hwf, rremoveL_absR ls n hwf, rremoveL_false ls n hwf⟩
+
+/-- Pruning invariant of the retained trie: every node below the root has a
+child or holds a message; kept by successful inserts and by all removes. -/
+theorem C06_retained_pruned_preserved (n : RNode) (ls : List Level) (hwf : RWF n) (hp : RPruned n) :
+    (∀ m, RPruned (n.rinsertL ls true m)) ∧ (∀ ok, RPruned (n.rremoveL ls ok).1) :=
+  ⟨fun m => rinsertL_RPruned ls m n hp, fun ok => rremoveL_RPruned ls ok n hwf hp⟩
+
+/-- Over histories of good operations the retained trie holds exactly the
+abstract store's retained messages (the last non-empty message per topic). -/
+theorem C06_retained_store_refines (ops : List Op) (hg : ∀ op ∈ ops, goodOp op = true) :
+    RWF (mrun ops).rroot ∧
+    (absR (mrun ops).rroot).Perm ((srun ops).rets.map (fun r => (split r.topic, toRMsg r))) :=
+  ⟨(run_rinv ops hg).wf, (run_rinv ops hg).perm⟩
+
+/-- The full statement of the retained part of C06. -/
+def C06_retained_full : Prop :=
+  ∀ (ops : List Op) (f : List UInt8), validFilter f = true →
+    ∃ r, (mrun ops).retained f = some r ∧
+      (r.map toRet).Perm ((srun ops).rets.filter (fun r => topicMatches f r.topic))
+
+/-- False of the code as it is (finding B3): filter "/a" returns the message retained for "x/a". -/
+theorem C06_retained_full_counterexample : ¬ C06_retained_full := by
+  intro h
+  obtain ⟨r, hr, hp⟩ := h [.retain [120, 47, 97] 0 [1]] [47, 97] (by decide)
+  have h1 : (mrun [.retain [120, 47, 97] 0 [1]]).retained [47, 97] =
+      some [{ topic := [120, 47, 97], qos := 0, payload := [1] }] := by decide
+  have h2 : (srun [.retain [120, 47, 97] 0 [1]]).rets.filter (fun r => topicMatches [47, 97] r.topic) = [] := by
+    decide
+  rw [h1] at hr
+  rw [h2] at hp
+  cases hr
+  exact absurd hp.length_eq (by decide)
+
+/-- The part that holds: after any history of good operations (no empty
+level, no '$'-led level, retained topics are valid names) and for every such
+valid filter, `Retained` returns exactly the last non-empty message of every
+topic matching the filter under section 4.7. -/
+theorem C06_retained_partial (ops : List Op) (f : List UInt8)
+    (hg : ∀ op ∈ ops, goodOp op = true) (hgf : good f = true) (hv : validFilter f = true) :
+    ∃ r, (mrun ops).retained f = some r ∧
+      (r.map toRet).Perm ((srun ops).rets.filter (fun r => topicMatches f r.topic)) :=
+  retained_refines (mrun ops) (srun ops).rets f (run_rinv ops hg) hgf hv
+
+/-- non-vacuity: replace, clear a child (the parent's message survives), query with `#` and `+` -/
+example :
+    let ops : List Op := [.retain [97] 1 [1], .retain [97, 47, 98] 0 [2], .retain [97, 47, 98] 0 [3],
+                          .retain [97, 47, 99] 1 [4], .retain [97, 47, 99] 0 []]
+    (∀ op ∈ ops, goodOp op = true) ∧ good [97, 47, 35] = true ∧ validFilter [97, 47, 35] = true ∧
+      ((mrun ops).retained [97, 47, 35]).map (·.map toRet) = some [⟨[97], 1, [1]⟩, ⟨[97, 47, 98], 0, [3]⟩] ∧
+      ((mrun ops).retained [97, 47, 43]).map (·.map toRet) = some [⟨[97, 47, 98], 0, [3]⟩] := by decide
 
 end Mqtt.Properties.C06
